@@ -45,6 +45,7 @@ def run(F, rep, tier):
     comments(F, rep)
     no_layout_flow(F, rep)
     paren_transparent(F, rep)
+    prime_continuation(F, rep)
 
 
 def one_call_node(F, rep):
@@ -357,6 +358,39 @@ def cursor(F, rep):
     rep.ob("CURSOR", "push_skip_newlines|renormalises", ok,
            "push_skip_newlines returns new.skip(0): a context that enters newline-skipping mode on a newline (or on a comment "
            "followed by one) is moved to the next significant token", fpush["sp"])
+
+
+def prime_continuation(F, rep):
+    """a prime call has no closing bracket, so its argument list continues over a line break only next to a comma.  That
+    test must treat a *run* of line breaks (a blank line, a comment-only line - comments are skipped, their newline is
+    not) like a single one: a fixed-width token lookahead with Newline in it does not."""
+    fn = F.fn(P + "assignable_call")
+    rep.analysed(fn)
+    fixed = []
+    for m in nodes(fn_body(fn), "Match"):
+        scr = peel(m["scrut"])
+        if scr.get("k") == "MethodCall" and scr["m"] == "tokens_lookahead":
+            for a in m["arms"]:
+                if any((pat_variant(x) or "").endswith("Token::Newline") for alt in pat_alternatives(a["pat"]) for x in _subpats(alt)):
+                    fixed.append(a)
+    loops = [w for w in nodes(fn_body(fn), "While")
+             if any((pat_variant(alt) or "").endswith("Token::Newline") for mm in nodes(w.get("cond") or {}, "Match") for a in mm["arms"]
+                    for alt in pat_alternatives(a["pat"]))]
+    rep.ob("NEWLINE-MODE", "assignable_call|continuation-skips-runs", not fixed and bool(loops),
+           "the continuation test of a prime call's argument list passes over any run of line breaks around the comma" if not fixed and loops else
+           "the continuation test of a prime call's argument list is a fixed two-token lookahead (`[Newline, Comma]` / `[Comma, Newline]`): "
+           "a blank or comment-only line between two arguments ends the list, and the rest becomes a separate statement",
+           line_of(fixed[0]) if fixed else fn["sp"])
+
+
+def _subpats(p):
+    out = [p]
+    if isinstance(p, dict):
+        for x in (p.get("pats") or []) + (p.get("before") or []) + (p.get("after") or []):
+            out += _subpats(x)
+        if isinstance(p.get("pat"), dict):
+            out += _subpats(p["pat"])
+    return out
 
 
 def paren_transparent(F, rep):
